@@ -4,6 +4,7 @@ import NomtModel.Store.StageGlueEnforceKeys
 import NomtModel.Store.StageGlueFilter
 import NomtModel.Store.LeafUpdRun3
 import NomtModel.Store.LeafUpdSep
+import NomtModel.Store.StageGlueEmpty
 /-!
 # The leaf stage as a whole (`leafStage_spec`)
 
@@ -153,6 +154,8 @@ structure LeafStageOK (lpn fresh : Nat → Nat) (a0 : Nat) (db : List (DbLeaf V)
   allocs : o.allocs = a0 + (newsOf o.level).length
   /-- `PostIoWork`: exactly the produced leaves, each with the page number it was written to -/
   postio : ∀ pn l, (pn, l) ∈ o.postIo ↔ ∃ i, (newsOf o.level)[i]? = some l ∧ pn = fresh (a0 + i)
+  /-- on the empty tree the changeset only inserts -/
+  nones : db = [] → ∀ c ∈ o.changeset, c.2.isSome = true
   /-- every key of the changeset is a 256-bit key -/
   keys_lt : ∀ c ∈ o.changeset, c.1 < 2 ^ 256
   /-- released: the pages of the overflow cells of old entries whose key is in the batch, then the pages of the old leaves
@@ -326,7 +329,7 @@ structure LeafTreeOK (db : List (DbLeaf V)) : Prop where
 reaches no panic site — none of the updater's, not `assert!(entry.deleted.is_none())`, not the `assert!`s / `len() - 1` of
 `filter_leaves_changeset`, not the `unwrap` / indexings of `enforce_first_leaf_separator` — and `LeafStageOK` holds. -/
 theorem leafStage_spec (pagesOf : V → List Nat) (lpn fresh : Nat → Nat) (a0 : Nat) (db : List (DbLeaf V))
-    (cs : List (Nat × Option (V × Bool))) (lo : Nat) (ht : LeafTreeOK db) (hdbne : db ≠ [])
+    (cs : List (Nat × Option (V × Bool))) (lo : Nat) (ht : LeafTreeOK db)
     (hcs : LeafUpd.ChOK (2 ^ 256) lo cs) (hcsne : cs ≠ []) :
     ∃ o, leafStage LeafUpd.sepReal pagesOf fresh false (db.map fun l => (l.sep, lpn l.sep)) lpn db cs a0 = some o ∧
       LeafStageOK lpn fresh a0 db cs pagesOf o := by
@@ -423,7 +426,7 @@ theorem leafStage_spec (pagesOf : V → List Nat) (lpn fresh : Nat → Nat) (a0 
                submittedIo := a0 + (trackerInserted fresh tr.inner).length + tr.extraFreed.length,
                postIo := trackerInserted fresh tr.inner, allocs := a0 + (newsOf x.r.out).length,
                level := x.r.out ++ x.r.rest.map .old } := by
-      simp only [leafStage, hw, hr, hfilt, he]
+      simp only [leafStage, hw, hr, Bool.not_false, hfilt, he]
     refine ⟨_, hres, ?_⟩
     simp only [hxo]
     have hlvl2 : applyAll (lvlEnts (db.map fun l => (l.sep, lpn l.sep))) (chs enf) =
@@ -432,6 +435,18 @@ theorem leafStage_spec (pagesOf : V → List Nat) (lpn fresh : Nat → Nat) (a0 
       · rw [hact hh, hlevel]
       · rw [hnoact hh, hlevel]
         symm
+        by_cases hdbe : db = []
+        · -- the empty tree: the updater itself gives the first leaf the zero key
+          have hz := (runWorker_nil_head LeafUpd.sepReal (2 ^ 256) LeafUpd.sepReal_ok _ lo hcs out log
+            (by rw [← hdbe]; exact erun)).1
+          cases hout : out with
+          | nil => rfl
+          | cons o t =>
+            have h0 : o.sep = 0 := hz o (by rw [hout]; rfl)
+            cases o with
+            | old l => simp only [OutLeaf.sep] at h0; simp [lvlOf, relabel0, h0]
+            | new l => simp only [OutLeaf.sep] at h0; simp [lvlOf, relabel0, h0]
+        have hdbne : db ≠ [] := hdbe
         apply relabel0_of_head_zero hsortedNew
         -- the new level holds something under the zero key: the first old leaf or its replacement
         rw [← hlevel, getE_applyAll _ _ 0 (chs_keys_ne hcasc)]
@@ -553,7 +568,27 @@ theorem leafStage_spec (pagesOf : V → List Nat) (lpn fresh : Nat → Nat) (a0 
         refine ⟨l.sep, .new 0 (a0 + i), ?_, rfl⟩
         rw [hinsFull l.sep]
         exact (expInsL_iff (fun l : Leaf V => l.sep) l.sep l _ _ a0 hnewsasc).2 ⟨i, h1, rfl, rfl⟩
-    refine ⟨by rw [hcontent], by rw [erun, hlog], hoasc, hnews, holds, ⟨s, hs⟩, heasc, hlvl2, ?_, hpostio, hkeys, ?_⟩
+    have hnones : db = [] → ∀ c ∈ enf, c.2.isSome = true := by
+      intro hdbe c hc
+      have hnn : ∀ c ∈ trackerChanges fresh tr.inner, c.2.isSome = true := by
+        intro c hc
+        obtain ⟨k, w⟩ := c
+        cases w with
+        | some p => rfl
+        | none => have := hdels k hc; rw [hdbe] at this; cases this
+      have hh : (trackerChanges fresh tr.inner).head? ≠ some (0, none) := by
+        intro h0
+        cases htc : trackerChanges fresh tr.inner with
+        | nil => rw [htc] at h0; cases h0
+        | cons d t =>
+          rw [htc] at h0
+          simp only [List.head?_cons, Option.some.injEq] at h0
+          have := hnn d (by rw [htc]; simp)
+          rw [h0] at this
+          cases this
+      rw [hnoact hh] at hc
+      exact hnn c hc
+    refine ⟨by rw [hcontent], by rw [erun, hlog], hoasc, hnews, holds, ⟨s, hs⟩, heasc, hlvl2, ?_, hpostio, hnones, hkeys, ?_⟩
     · show a0 + (newsOf x.r.out).length = a0 + (newsOf out).length
       rw [← hxo, newsOf_append, newsOf_old, List.append_nil]
     · refine ⟨trackerFreed tr.inner, ?_, ?_⟩
